@@ -618,7 +618,8 @@ HierFamily ==
             f \in (IF d = 1 THEN {1} ELSE 1..2), sm \in (IF d = 1 THEN {FALSE} ELSE BOOLEAN),
             w \in 0..3, n \in {"lib", "user", "userbase"}, s \in SplitSeqs(d)}
         \cup {PV(d, 1, FALSE, w, "lib", s, l[1], l[2], l[3], l[4], l[5], "", <<>>) :
-            w \in {0, 1}, s \in PlainSplits(d), l \in LeafShapes}
+            w \in (IF Wide THEN {0, 1} ELSE {0}),
+            s \in (IF Wide \/ d < 3 THEN PlainSplits(d) ELSE {[i \in 1..d |-> "none"]}), l \in LeafShapes}
         : d \in 1..MaxDepth}
 
 Sites(d, split, alias) ==
